@@ -35,7 +35,7 @@ def snap(v):
     ty = type(v)
     if ty in (list, tuple) or isinstance(v, list):
         return (ty.__name__, id(v), tuple(snap(x) for x in v))
-    if isinstance(v, (dict, types.MappingProxyType)):
+    if isinstance(v, values.MAPS):
         return (ty.__name__, id(v), tuple((snap(k), snap(x)) for k, x in v.items()))
     if ty is bytearray:
         return ('bytearray', id(v), bytes(v))
@@ -52,7 +52,7 @@ def has_mutable(v):
         return True
     if isinstance(v, tuple):
         return any(has_mutable(x) for x in v)
-    if isinstance(v, types.MappingProxyType):
+    if isinstance(v, (types.MappingProxyType, values.BareMapping)):
         return any(has_mutable(x) for x in v.values())
     return False
 
@@ -60,7 +60,7 @@ def has_mutable(v):
 def immutable(v):
     if isinstance(v, (list, tuple)):
         return tuple(immutable(x) for x in v)
-    if isinstance(v, (dict, types.MappingProxyType)):
+    if isinstance(v, values.MAPS):
         return types.MappingProxyType({k: immutable(x) for k, x in v.items()})
     return v
 
